@@ -71,6 +71,12 @@ pub struct Scn {
 pub struct C29;
 
 const MAX_STEPS: usize = 20_000;
+/// decisions within which everything must have wound down after the final group shutdown
+const LIVENESS_STEPS: usize = 5_000;
+thread_local! {
+    /// decision count at which the main task invoked the final group shutdown (None: not yet)
+    static FINAL_SHUTDOWN_AT: std::cell::Cell<Option<usize>> = const { std::cell::Cell::new(None) };
+}
 
 fn dur_grid(r: &mut SplitMix, linger: u64) -> u64 {
     let l = linger.max(1);
@@ -195,16 +201,22 @@ impl Prop for C29 {
         }
     }
 
-    fn bound_exceeded(scn: &Scn, plan: &ExecPlan) -> Option<Violation> {
-        // Only the fair configuration gives a liveness verdict; eager clocks and
-        // PCT are unfair by construction (see DESIGN.md, C29 oracle 5).
-        if plan.clock == ClockPolicy::Des && matches!(plan.strategy, Strategy::Random) && scn.spurious_wakeup_pm == 0 {
-            Some(Violation {
+    fn bound_exceeded(scn: &Scn, _plan: &ExecPlan) -> Option<Violation> {
+        // Bounded liveness, stated so that it cannot depend on how long the scenario itself
+        // runs: once the final group shutdown has been *invoked* nothing is respawned any more and
+        // everything must wind down within LIVENESS_STEPS decisions. A scenario that uses up the
+        // budget before that point (e.g. a pool shut down on its own keeps respawning its permanent
+        // workers at the respawn delay until the group goes down) is inconclusive. Only the fair
+        // configuration gives a verdict; eager clocks and PCT are unfair by construction. The
+        // scenario's own strategy/clock are used, not the plan's: a replay must judge alike.
+        let fair = scn.clock == "des" && scn.strategy == "random" && scn.spurious_wakeup_pm == 0;
+        let since_shutdown = FINAL_SHUTDOWN_AT.with(|f| f.get()).map(|at| MAX_STEPS.saturating_sub(at));
+        match since_shutdown {
+            Some(n) if fair && n >= LIVENESS_STEPS => Some(Violation {
                 class: "no-progress-within-step-bound".into(),
-                detail: format!("{MAX_STEPS} scheduling decisions without completion under the fair DES configuration"),
-            })
-        } else {
-            None
+                detail: format!("{n} scheduling decisions after the final group shutdown was invoked without completion, under the fair DES configuration"),
+            }),
+            _ => None,
         }
     }
 
@@ -337,7 +349,7 @@ impl Prop for C29 {
         vec![
             "a crashing (panicking) task body is simulated as a contained unwind (fault task_panic): the thread unwinds through quandary's drop handlers with thread::panicking() true in that thread only, and ends; a crash counts as the task having run".into(),
             "'thread has exited' is observed as: the thread's closure has returned (end_thread bookkeeping done, no further user code)".into(),
-            "step-bound exhaustion is a violation only under DES + fair random scheduling without spurious wake-ups; otherwise inconclusive".into(),
+            "step-bound exhaustion is a violation only under DES + fair random scheduling without spurious wake-ups and only if at least 5000 decisions were left after the final group shutdown had been invoked; otherwise inconclusive".into(),
         ]
     }
     fn real_components() -> Vec<&'static str> {
@@ -368,6 +380,7 @@ fn run(scn: &Scn) {
         .with(Fault::SpuriousWakeup, scn.spurious_wakeup_pm)
         .with(Fault::SpawnFail, scn.spawn_fail_pm);
     simrt::start(world_cfg(1, faults));
+    FINAL_SHUTDOWN_AT.with(|f| f.set(None));
 
     let n_tasks: usize = scn.submitters.iter().map(|s| s.len()).sum();
     let started: Arc<Vec<AtomicU32>> = Arc::new((0..n_tasks).map(|_| AtomicU32::new(0)).collect());
@@ -582,6 +595,7 @@ fn run(scn: &Scn) {
     simrt::thread::sleep(Duration::from_millis(horizon_ms + max_linger + 2_000));
     let blocked_before = recs.lock().unwrap().len();
     group_down_invoked.fetch_min(simrt::stamp(), SeqCst);
+    FINAL_SHUTDOWN_AT.with(|f| f.set(Some(simrt::sched::decisions_so_far())));
     group.shut_down();
     let s = simrt::event("main_group_shut_down_returned", 0, 0);
     for p in pool_down.iter() {
